@@ -17,6 +17,10 @@ import copy
 import inspect
 import json
 
+from harness import c10_locate as L
+
+LOC_NOTES = []      # sentences of the locators (a private name was gone, a fallback through public behaviour was used)
+
 STREAMS = ['dispatch-random', 'dispatch-lookup-grid', 'dispatch-deferred', 'dispatch-builtin']
 THEOREMS = [
     'at_most_one_reply', 'exactly_one_if_expected', 'none_if_no_reply_and_dispatched',
@@ -493,9 +497,8 @@ def deco_of(f):
     declaration for harness-built functions, from the attributes for the library's own ones."""
     if hasattr(f, '_spec_deco'):
         return f._spec_deco
-    if hasattr(f, '_dbusInterface'):
-        return (f._dbusInterface, f._dbusMethod)
-    return None
+    from txdbus import objects
+    return L.deco_of_library(objects, f, LOC_NOTES)
 
 
 class Built:
@@ -591,12 +594,18 @@ class Built:
         return toks
 
     def export_lines(self):
-        return [' '.join(['export'] + self.obj_tokens(path, obj)) for path, obj in self.handler.exports.items()]
+        return [' '.join(['export'] + self.obj_tokens(path, obj))
+                for path, obj in L.exports_of(self.handler, LOC_NOTES).items()]
 
 
 def kwonly_caller(f):
     code = f.__code__
     return 'dbusCaller' in code.co_varnames[code.co_argcount:code.co_argcount + code.co_kwonlyargcount]
+
+
+def _marshal_mod():
+    from txdbus import marshal
+    return marshal
 
 
 def wants_caller(f):
@@ -618,22 +627,14 @@ def parse_value(s):
 def build_call_message(op):
     """Real bytes of the call, parsed back: the message handed to the dispatcher.  All eight values
     of the low three flag bits occur: NO_REPLY_EXPECTED (0x1) from `expectReply`, NO_AUTO_START (0x2)
-    from `autoStart`, ALLOW_INTERACTIVE_AUTHORIZATION (0x4) patched into the flags byte."""
-    from txdbus import message
-    body = parse_value(op['body'])
-    m = message.MethodCallMessage(op['path'], op['member'], interface=op['iface'], destination=':1.1',
-                                  signature=op['sig'], body=body if op['sig'] else None,
-                                  expectReply=op['expectReply'], autoStart=op.get('autoStart', True))
-    m.serial = op['serial']
-    if op['sender'] is not None:
-        m.sender = op['sender']
-    m._marshal(newSerial=False)
-    raw = bytearray(m.rawMessage)
-    if op.get('flag4'):
-        raw[2] |= 0x4
-    want = (0 if op['expectReply'] else 1) | (0 if op.get('autoStart', True) else 2) | (4 if op.get('flag4') else 0)
-    assert raw[2] == want, (raw[2], want)
-    return message.parseMessage(bytes(raw), [])
+    from `autoStart`, ALLOW_INTERACTIVE_AUTHORIZATION (0x4) patched into the flags byte.  The bytes come
+    from the public constructor + the re-marshal entry point (harness/c10_locate.call_bytes)."""
+    from txdbus import marshal, message
+    raw = L.call_bytes(message, marshal, op['path'], op['member'], iface=op['iface'], destination=':1.1',
+                       sender=op['sender'], signature=op['sig'], body=parse_value(op['body']),
+                       expect_reply=op['expectReply'], auto_start=op.get('autoStart', True),
+                       flag4=bool(op.get('flag4')), serial=op['serial'], notes=LOC_NOTES)
+    return message.parseMessage(raw, [])
 
 
 # ----------------------------------------------------------------------------- encodability (parameter of the model)
@@ -654,7 +655,7 @@ def managed_probe(handler, path):
     from txdbus import message
     from twisted.python import failure
     try:
-        body = handler.getManagedObjects(path)
+        body = L.managed_objects(handler, path, LOC_NOTES)
         message.MethodReturnMessage(1, body=[body], destination=':1.1', signature='a{oa{sa{sv}}}')
         return None
     except Exception as e:     # noqa
@@ -868,7 +869,7 @@ class Scenario:
     # ---- canonical event text (must equal Driver/C10.lean's showEvent); every field of a message is
     # read from the message RE-PARSED from its bytes
     def canon_events(self, cr, events, ret_value):
-        from txdbus import introspection, message
+        from txdbus import message
         out = []
         for ev in events:
             if ev[0] == 'inv':
@@ -887,12 +888,12 @@ class Scenario:
             elif isinstance(w, message.MethodReturnMessage):
                 if w.body is None and w.signature is None:
                     b = 'empty'
-                elif w.signature == 's' and ret_value is _M and w.body == [
-                        introspection.generateIntrospectionXML(cr.op['path'], self.built.handler.exports)]:
-                    b = 'xml'
-                elif ret_value is _M and w.signature == 'a{oa{sa{sv}}}' and w.body == [
-                        self.built.handler.getManagedObjects(cr.op['path'])]:
-                    b = 'managed'
+                elif ret_value is _M and (cr.op['iface'], cr.op['member']) == INTRO and isinstance(w.body, list) \
+                        and len(w.body) == 1 and isinstance(w.body[0], str):
+                    b = 'xml'          # the XML itself is C16's
+                elif ret_value is _M and (cr.op['iface'], cr.op['member']) == MANAGED and isinstance(w.body, list) \
+                        and len(w.body) == 1 and isinstance(w.body[0], dict):
+                    b = 'managed'      # the content is C16's
                 elif ret_value is not _M and m.body is ret_value:
                     b = 'vals:' + ','.join(str(i) for i in range(len(ret_value)))
                 elif ret_value is not _M and isinstance(m.body, list) and len(m.body) == 1 and m.body[0] is ret_value:
@@ -977,14 +978,14 @@ class Scenario:
             otoks = ['D']
         names.append('org.txdbus.PythonException.NotImplementedError')
         menc = None
-        if (op['iface'], op['member']) == MANAGED and op['path'] in self.built.handler.exports:
+        if (op['iface'], op['member']) == MANAGED and op['path'] in L.exports_of(self.built.handler, LOC_NOTES):
             menc = managed_probe(self.built.handler, op['path'])
         return ' '.join(toks + names_tokens(names) + enc_tokens(menc) + otoks)
 
     def sig_out_for_model(self, op):
         """sigOut of the method the REAL lookup finds (only used to evaluate the model's `encErr`
         parameter on the real codec; '' when the lookup fails - then no value is ever encoded)."""
-        obj = self.built.handler.exports.get(op['path'])
+        obj = L.exports_of(self.built.handler, LOC_NOTES).get(op['path'])
         if obj is None:
             return ''
         for x in obj.getInterfaces():
@@ -1529,6 +1530,15 @@ def quiet_twisted():
 def run(ctx):
     quiet_twisted()
     rng = ctx.rng
+    del LOC_NOTES[:]
+    try:
+        _run(ctx, rng)
+    finally:
+        for n in LOC_NOTES:
+            ctx.note('locator: ' + n)
+
+
+def _run(ctx, rng):
     # corpus first
     for name, data in ctx.corpus():
         spec = data.get('scenario') or data.get('input', {}).get('scenario')
